@@ -216,7 +216,9 @@ theorem C11_make_primary_only_own (s s' : State) (h : Int) (c raw n : String)
     AMap.get s'.primary a = AMap.get s.primary a ∧ s'.names = s.names ∧ s'.bank = s.bank := by
   unfold step at hstep
   split at hstep
-  case isFalse => simp at hstep
+  case isFalse => cases hstep
+  simp only [Option.bind_eq_some_iff] at hstep
+  obtain ⟨cc, -, hstep⟩ := hstep
   simp only [handle, makePrimary, bind, Option.bind_eq_some_iff] at hstep
   obtain ⟨⟨nm, tld⟩, -, hs⟩ := hstep
   simp only [Option.some.injEq] at hs; subst hs
